@@ -31,6 +31,12 @@ LEVEL_TEXT = (
     "ever touch the same memory location and the main thread reads only "
     "after all joins. Decided for thread counts 1..P+2 over representative "
     "rectangular local sizes; no schedule needs to be enumerated.")
+LEVEL_TEXT += (
+    " Added after the seeding phase: every configuration is run under two "
+    "extreme schedules - each worker runs to completion when started / "
+    "only when joined - so anything a worker reads from the enclosing "
+    "frame after its creation (a loop variable captured by a closure) "
+    "differs between the two.")
 LEVEL_NOTE = (
     "Assumes the integrand is pure and numpy.array_split yields disjoint, "
     "covering, order-preserving chunks (its contract). NumPy/GIL internals "
